@@ -59,17 +59,19 @@ func (impl Implementation) Dorgbr(vect lapack.GenOrtho, m, n, k int, a []float64
 		return
 	}
 
+	// The workspace queries must not look at a, tau or lda: a caller that is
+	// itself answering a workspace query may pass placeholders for them.
 	if wantq {
 		if m >= k {
-			impl.Dorgqr(m, n, k, a, lda, tau, work, -1)
+			impl.Dorgqr(m, n, k, nil, max(1, n), nil, work, -1)
 		} else if m > 1 {
-			impl.Dorgqr(m-1, m-1, m-1, a[lda+1:], lda, tau, work, -1)
+			impl.Dorgqr(m-1, m-1, m-1, nil, m-1, nil, work, -1)
 		}
 	} else {
 		if k < n {
-			impl.Dorglq(m, n, k, a, lda, tau, work, -1)
+			impl.Dorglq(m, n, k, nil, max(1, n), nil, work, -1)
 		} else if n > 1 {
-			impl.Dorglq(n-1, n-1, n-1, a[lda+1:], lda, tau, work, -1)
+			impl.Dorglq(n-1, n-1, n-1, nil, n-1, nil, work, -1)
 		}
 	}
 	lworkopt := int(work[0])
